@@ -1,1 +1,2 @@
 pub mod func;
+pub mod inst;
